@@ -25,6 +25,7 @@ static int
 readname_loop(char *packet, int packetlen, char **src, char *dst, size_t length, size_t loop)
 {
 	char *dummy;
+	char *end;
 	char *s;
 	char *d;
 	int len;
@@ -37,11 +38,16 @@ readname_loop(char *packet, int packetlen, char **src, char *dst, size_t length,
 	len = 0;
 	s = *src;
 	d = dst;
-	while(*s && len < length - 2) {
+	end = packet + packetlen;	/* never look at bytes we did not receive */
+	while(s < end && *s && len < length - 2) {
 		c = *s++;
 
 		/* is this a compressed label? */
 		if ((c & 0xc0) == 0xc0) {
+			if (s >= end) {
+				/* Second byte of the pointer is missing */
+				break;
+			}
 			offset = (((s[-1] & 0x3f) << 8) | (s[0] & 0xff));
 			if (offset > packetlen) {
 				if (len == 0) {
@@ -57,7 +63,7 @@ readname_loop(char *packet, int packetlen, char **src, char *dst, size_t length,
 			goto end;
 		}
 
-		while(c && len < length - 1) {
+		while(c && len < length - 1 && s < end) {
 			*d++ = *s++;
 			len++;
 
@@ -66,6 +72,10 @@ readname_loop(char *packet, int packetlen, char **src, char *dst, size_t length,
 
 		if (len >= length - 1) {
 			break; /* We used up all space */
+		}
+
+		if (s >= end) {
+			break; /* Name is cut off by the end of the packet */
 		}
 
 		if (*s != 0) {
